@@ -20,7 +20,8 @@ Inductive op :=
 | OpComplete (args : list str)    (* ParseArgs with GO_FLAGS_COMPLETION set and a CompletionHandler *)
 | OpInspect                       (* dump of the public model *)
 | OpAttach (a : attach_op)        (* AddGroup / AddCommand / AddOption in the middle of a history *)
-| OpObserve.                      (* nothing happens: only the observations are taken *)
+| OpObserve                       (* nothing happens: only the observations are taken *)
+| OpSetHidden (path : list nat) (hidden : bool).   (* cmd.Hidden = hidden on the command at [path] (the field of its embedded Group) *)
 
 Record scenario := {
   sc_cfg : pconfig;
@@ -353,6 +354,16 @@ Definition run_op (sc : scenario) (w : world) (o : op) : world * str * bool (* s
   | OpMan =>
     (w, render_op sc w "man" None None None (line "bytes" (hex_of_str (write_man (sc_cfg sc) (w_tree w) (s2l "2 January 1970")))), false)
   | OpObserve => (w, render_op sc w "observe" None None None [], false)
+  | OpSetHidden path h =>
+    let w' := {| w_tree := cmd_update (w_tree w) path (fun c =>
+                             let 'Command ci (Group gi os gs) args subs := c in
+                             Command {| c_name := c_name ci; c_aliases := c_aliases ci; c_sub_optional := c_sub_optional ci;
+                                        c_args_required := c_args_required ci; c_hidden := h; c_exec := c_exec ci;
+                                        c_usage := c_usage ci; c_has_help := c_has_help ci |}
+                                     (Group {| g_short := g_short gi; g_long := g_long gi; g_ns := g_ns gi; g_envns := g_envns gi;
+                                               g_hidden := h; g_builtin_help := g_builtin_help gi |} os gs) args subs);
+                 w_rt := w_rt w; w_internal := w_internal w; w_attached := w_attached w |} in
+    (w', render_op sc w' "hide" None None None [], false)
   | OpAttach a =>
     match apply_attach (pc_nsdelim (sc_cfg sc)) w a with
     | Ok w' => (w', render_op sc w' "attach" None None None [], false)
